@@ -10,6 +10,10 @@ impl Rng {
     fn next(&mut self) -> u64 { self.0 ^= self.0 << 13; self.0 ^= self.0 >> 7; self.0 ^= self.0 << 17; self.0 }
     fn i64_any(&mut self) -> i64 { let v = self.next() as i64; let sh = self.next() % 64; v >> sh }
 }
+static LAST_PANIC: std::sync::Mutex<String> = std::sync::Mutex::new(String::new());
+static CURRENT: std::sync::Mutex<String> = std::sync::Mutex::new(String::new());
+fn current(s: &str) { if let Ok(mut c) = CURRENT.lock() { *c = s.to_string(); } }
+fn last_panic() -> String { LAST_PANIC.lock().map(|l| l.clone()).unwrap_or_default() }
 static mut CASES: u64 = 0;
 static mut FOUND: u64 = 0;
 fn case() { unsafe { CASES += 1; } }
@@ -649,6 +653,49 @@ fn twin_tz(r: &mut Rng) {
         let nm = format!("{} times={:?} idx={:?} types={:?} footer={}", name, times, idx, types, footer);
         run_zone(name, move || { check_zone(nm, &model, &tys, &pr, &bd); });
     }
+    // --- C16: readers survive everything else: structured mutations of a valid file and of valid TZ strings must never panic
+    //     (a rejected source silently falls back to another zone on the public route, so only panics are observable here)
+    let base: Vec<u8> = {
+        let mut f: Vec<u8> = vec![];
+        let blk = |f: &mut Vec<u8>, wide: bool, times: &[i64]| {
+            f.extend_from_slice(b"TZif2"); f.extend_from_slice(&[0u8; 15]);
+            for c in [2u32, 2, 0, times.len() as u32, 2, 8] { f.extend_from_slice(&c.to_be_bytes()); }
+            for &t in times { if wide { f.extend_from_slice(&t.to_be_bytes()); } else { f.extend_from_slice(&(t as i32).to_be_bytes()); } }
+            for i in 0..times.len() { f.push((i % 2) as u8); }
+            for (o, d, ix) in [(3600i32, 0u8, 0u8), (7200, 1, 4)] { f.extend_from_slice(&o.to_be_bytes()); f.push(d); f.push(ix); }
+            f.extend_from_slice(b"CET\0CES\0"); f.extend_from_slice(&[0, 0, 0, 0]);
+        };
+        blk(&mut f, false, &[100_000, 900_000]); blk(&mut f, true, &[100_000, 900_000, 1_700_000_000]);
+        f.extend_from_slice(b"\nCET-1CEST,M3.5.0,M10.5.0/3\n"); f
+    };
+    let mut muts: Vec<Vec<u8>> = vec![base.clone()];
+    for cut in (0..base.len()).step_by(3) { muts.push(base[..cut].to_vec()); }
+    for pos in 20..44 { for v in [0u8, 1, 0x7f, 0x80, 0xff] { let mut m = base.clone(); m[pos] = v; muts.push(m); } }                          // v1 header counts
+    let h2 = base.windows(5).rposition(|w| w == b"TZif2").unwrap();
+    for pos in h2 + 20..h2 + 44 { for v in [0u8, 1, 0x7f, 0x80, 0xff] { let mut m = base.clone(); m[pos] = v; muts.push(m); } }               // v2 header counts
+    for pos in h2 + 44..h2 + 44 + 24 { for v in [0x7fu8, 0x80, 0xff] { let mut m = base.clone(); m[pos] = v; muts.push(m); } }               // 64-bit transition times (extremes)
+    for _ in 0..150 { let mut m = base.clone(); for _ in 0..1 + r.next() % 4 { let p = (r.next() % m.len() as u64) as usize; m[p] = r.next() as u8; } muts.push(m); }
+    for (mi, m) in muts.into_iter().enumerate() {
+        let path = dir.join(format!("m{}.tzif", mi));
+        std::fs::write(&path, &m).ok();
+        let name = format!(":{}", path.display());
+        let nm = name.clone();
+        run_zone(name, move || {
+            use chrono::Local;
+            for t in [-2_000_000_000i64, 0, 100_000, 900_000, 1_700_000_000, 4_000_000_000, 8_000_000_000_000] { if let Some(u) = ndt_of(t as i128) {
+                case();
+                if guard(|| { let _ = Local.offset_from_utc_datetime(&u); let _ = Local.from_local_datetime(&u); }).is_err() { found("TZif reader / lookup", format!("mutated file #{} ({}) at t={}", mi, nm, t), format!("panic: {}", last_panic()), "a zone or a silent fallback".into()); }
+            } }
+        });
+    }
+    let tzs = ["EST5EDT,M3.2.0,M11.1.0", "CET-1CEST,M3.5.0,M10.5.0/3", "AAA-3", "<+03>-3", "AAA5BBB,J60/25,J300", "AAA5BBB,0/0,365/24:59:59"];
+    let alphabet: Vec<char> = "0123456789,./:+-<>MJAZaz \u{00e9}".chars().collect();
+    for b in tzs { let cs: Vec<char> = b.chars().collect(); for i in 0..=cs.len() { for &c in &alphabet {
+        let mut v = cs.clone(); if i < cs.len() && r.next() % 2 == 0 { v[i] = c; } else { v.insert(i, c); }
+        let tz: String = v.iter().collect(); let t2 = tz.clone();
+        run_zone(tz, move || { use chrono::Local; for t in [0i64, 1_700_000_000, -5_000_000_000] { let u = ndt_of(t as i128).unwrap(); case();
+            if guard(|| { let _ = Local.offset_from_utc_datetime(&u); let _ = Local.from_local_datetime(&u); }).is_err() { found("TZ string reader / lookup", format!("TZ={:?} at t={}", t2, t), format!("panic: {}", last_panic()), "a zone or a silent fallback".into()); } } });
+    } } }
     std::fs::remove_dir_all(&dir).ok();
 }
 
@@ -733,6 +780,42 @@ fn twin_parsed(r: &mut Rng) {
     } }
 }
 
+
+// ---- C15 (strings, BOUNDED): every parser and the format-string iterator return normally on arbitrary text -------------------
+fn twin_strings(r: &mut Rng) {
+    use chrono::format::StrftimeItems;
+    let pieces = ["%", "%Y", "%-", "%_", "%0", "%:", "%::", "%:::", "%#", "%.", "%.3", "%.3f", "%3", "%3f", "%9f", "%+", "%z", "%:z", "%Z", "%s", "%c", "%D", "%F", "%T", "%%", "%n", "%t", "%A", "%b", "%p", "%e", "%j",
+                  "%U", "%G", "%V", "%q", "%E", "%O", "%!", "%\u{00e9}", "\u{00e9}", "\u{1F600}", " ", "  ", "\t", "-", ":", "T", "Z", "+", "00", "1", "99999999999999999999", "2024", "12", "31", "Mon", "monday", "Jan", "PM", "\u{2212}", "\0", "(", ")", "\\", ","];
+    let texts = ["2024-02-29T23:59:60.5+01:00", "Tue, 1 Jul 2003 10:52:37 +0200", "2024-01-01", "23:59:59.999999999", "2024-01-01 00:00:00 UTC", "Wed, 02 Jan (a (nested) comment) 2013 10:52:37 GMT", "+262143-01-01", "-262144-12-31", "12:00:60", "Jul 8 2001"];
+    let mut inputs: Vec<String> = texts.iter().map(|s| s.to_string()).collect();
+    for _ in 0..1500 { let n = 1 + r.next() % 6; let mut s = String::new(); for _ in 0..n { s += pieces[(r.next() % pieces.len() as u64) as usize]; } inputs.push(s); }
+    for t in texts { let cs: Vec<char> = t.chars().collect(); for i in 0..=cs.len() { let mut v = cs.clone(); v.truncate(i); inputs.push(v.iter().collect()); if i < cs.len() { let mut v = cs.clone(); v[i] = ['\u{00e9}', '9', ' ', '%', '-'][(r.next() % 5) as usize]; inputs.push(v.iter().collect()); } } }
+    let fmts: Vec<String> = inputs.iter().filter(|s| s.contains('%')).take(60).cloned().collect();
+    let d = NaiveDate::from_ymd_opt(2024, 2, 29).unwrap().and_hms_nano_opt(23, 59, 59, 1_500_000_000).unwrap();
+    for s in &inputs {
+        current(s);
+        case();
+        let n = guard(|| StrftimeItems::new(s).count());
+        match n { Ok(n) if n <= 7 * s.len() + 8 => {}, other => found("StrftimeItems", format!("{:?}", s), format!("{:?}", other), "a number of items linear in the input length (composite specifiers expand to at most 13 items per 2 bytes)".into()) }
+        case();
+        if guard(|| { let _ = DateTime::parse_from_rfc3339(s); let _ = DateTime::parse_from_rfc2822(s); let _ = s.parse::<NaiveDate>(); let _ = s.parse::<NaiveTime>(); let _ = s.parse::<NaiveDateTime>();
+                      let _ = s.parse::<DateTime<Utc>>(); let _ = s.parse::<DateTime<FixedOffset>>(); let _ = s.parse::<FixedOffset>(); let _ = s.parse::<Weekday>(); let _ = s.parse::<chrono::Month>(); }).is_err() {
+            found("parsers", format!("{:?}", s), format!("panic: {}", last_panic()), "Ok or Err".into());
+        }
+        // formatting with an arbitrary format string into a String either succeeds or reports an error (write! to a String: use fmt::Write to observe the error instead of the documented Display panic)
+        case();
+        if guard(|| { use std::fmt::Write; let mut out = String::new(); let _ = write!(out, "{}", d.and_utc().format(s)); }).is_err() && !last_panic().contains("a Display implementation returned an error") {
+            found("format", format!("{:?}", s), format!("panic: {}", last_panic()), "text or fmt::Error".into());
+        }
+    }
+    for f in &fmts { for s in inputs.iter().step_by(23) {
+        case();
+        if guard(|| { let _ = NaiveDate::parse_from_str(s, f); let _ = NaiveTime::parse_from_str(s, f); let _ = NaiveDateTime::parse_from_str(s, f); let _ = DateTime::parse_from_str(s, f); let _ = NaiveDate::parse_and_remainder(s, f); }).is_err() {
+            found("parse_from_str", format!("{:?}", (s, f)), format!("panic: {}", last_panic()), "Ok or Err".into());
+        }
+    } }
+}
+
 fn twin_round(r: &mut Rng) {
     let mut xs: Vec<NaiveDateTime> = vec![];
     for s in [-9_223_372_036i64, -9_223_372_035, 9_223_372_036, 9_223_372_035, 0, -1, 1, 86399, -86400, 1_700_000_000, -1_700_000_000, -9_223_372_037, 9_223_372_037, 253_402_300_799] { for n in [0u32, 1, 499_999_999, 500_000_000, 500_000_001, 999_999_999, 145_224_192, 854_775_807] { if let Some(d) = DateTime::from_timestamp(s, n) { xs.push(d.naive_utc()); } } }
@@ -773,7 +856,12 @@ fn main() {
     let a: Vec<String> = std::env::args().collect();
     let unit = a.get(1).map(|s| s.as_str()).unwrap_or("all");
     let seed: u64 = a.get(2).and_then(|s| s.parse().ok()).unwrap_or(1);
-    std::panic::set_hook(Box::new(|_| {}));
+    std::panic::set_hook(Box::new(|info| { if let Ok(mut l) = LAST_PANIC.lock() { *l = info.to_string().replace('\n', " "); } }));
+    // watchdog: an operation that makes no progress for 30 s is reported as a hang (C15: never loops forever)
+    let unit_name = unit.to_string();
+    std::thread::spawn(move || { let mut last = 0u64; let mut idle = 0; loop { std::thread::sleep(std::time::Duration::from_secs(5)); let c = unsafe { CASES };
+        if c == last { idle += 1; } else { idle = 0; last = c; }
+        if idle >= 6 { println!("FOUND hang :: {:?} :: got no progress for 30 s :: want termination", CURRENT.lock().map(|c| c.clone()).unwrap_or_default()); println!("DONE {} cases={} found={}", unit_name, c, unsafe { FOUND } + 1); std::process::exit(0); } } });
     let mut r = Rng(seed.wrapping_mul(0x9E3779B97F4A7C15) | 1);
     match unit {
         "timedelta" => twin_timedelta(&mut r),
@@ -787,7 +875,8 @@ fn main() {
         "fmt" => twin_fmt(&mut r),
         "tz" => twin_tz(&mut r),
         "parsed" => twin_parsed(&mut r),
-        _ => { twin_timedelta(&mut r); twin_date(&mut r); twin_iters(&mut r); twin_time(&mut r); twin_datetime(&mut r); twin_round(&mut r); twin_week(&mut r); twin_zoned(&mut r); twin_fmt(&mut r); twin_tz(&mut r); twin_parsed(&mut r); }
+        "strings" => twin_strings(&mut r),
+        _ => { twin_timedelta(&mut r); twin_date(&mut r); twin_iters(&mut r); twin_time(&mut r); twin_datetime(&mut r); twin_round(&mut r); twin_week(&mut r); twin_zoned(&mut r); twin_fmt(&mut r); twin_tz(&mut r); twin_parsed(&mut r); twin_strings(&mut r); }
     }
     unsafe { println!("DONE {} cases={} found={}", unit, CASES, FOUND); }
 }
